@@ -98,6 +98,9 @@ def gen_config(r, plain=0.25):
 
 FIXED_CONFIGS = [
     {},
+    # field options that name the very keys a clause kind generates by itself (they are defaults, not overrides)
+    {"field_options": {"title": {"allow_leading_wildcard": False, "lenient": True}, "text": {"analyze_wildcard": False},
+                       "a": {"zero_terms_query": "all", "boost": 3}, "c": {"fuzziness": "AUTO", "slop": 2}}},
     {"default_operator": "must"},
     {"nested_fields": {"a": {"b": {"c": {}}}}},                               # F8
     {"nested_fields": {"a": {}}},
@@ -212,6 +215,8 @@ CORPUS_QUERIES = [
     'a:(b:x AND c:"y z"~2)', 'a.b.c:x', 'n:(o:(h:x))', 'n.o.h:x~2', 'a:x^2', '(a b)^3', 'a:* AND b:?x AND c:\\*y',
     'a:(b OR c AND d)', 'x AND (y OR z) AND NOT w', 'a:"p q"~3^2', 'a:foo~', 'n.o:[a TO b] OR s:x',
     'author.book.format.type:pdf AND author.name:x', 'author:(name:x AND book:(title:y))', 'author.book:x',
+    # wildcards and modifiers on fields that carry options
+    'title:*bar', 'fo*', 'title:b?r AND text:x*', 'a:x', 'a:"p q"', 'c:x~1', 'c:"p q"~3', 'title:sp*m~1', 'a:x^2',
     # negations of groups: the complement of an implicit / explicit operation, under every default operator
     'NOT (a b)', '-(a b) c', 'NOT (a OR b)', 'NOT (a AND b)', 'c NOT (a b)', 'f:(NOT (a b))', '-(a b c)',
     'NOT (a b) AND NOT (c OR d)', 'a:(NOT b:x)', 'a:(-b:x)', 'a:(NOT (b:x c:y))', 'author:(NOT name:x)',
@@ -232,6 +237,20 @@ def corpus_trees(T):
         t2 = parser.parse(q)
         auto_name(t2)
         out.append(t2)
+    # a NAMED operand of every kind followed (and preceded) by un-named siblings: a name must not leak sideways
+    from luqum.naming import set_name as _set_name
+
+    def _named(node, nm="N"):
+        _set_name(node, nm)
+        return node
+    W_ = T.Word
+    for mk in (lambda: T.Group(W_("a")), lambda: T.Regex("/a/"), lambda: W_("a"), lambda: T.Phrase('"a b"'),
+               lambda: T.Not(W_("a")), lambda: T.Boost(W_("a"), 2), lambda: T.Fuzzy(W_("a"), 1),
+               lambda: T.SearchField("f", W_("a")), lambda: T.Range(W_("1"), W_("2")),
+               lambda: T.Group(T.OrOperation(W_("a"), W_("b"))), lambda: T.Plus(W_("a"))):
+        out.append(T.AndOperation(_named(mk()), W_("y"), W_("z")))
+        out.append(T.OrOperation(W_("x"), _named(mk()), W_("z")))
+        out.append(T.UnknownOperation(W_("x"), _named(mk(), "M"), T.Group(T.AndOperation(W_("p"), _named(mk(), "K"), W_("q")))))
     out += [
         T.SearchField("", T.Word("x")),
         T.AndOperation(T.OrOperation(T.Word("a")), T.Word("b")),
@@ -523,6 +542,12 @@ def builder_sessions(r, T, n_sessions, odd_share=0.45):
         for op in ("should", "must"):
             cfg = dict(base, default_operator=op)
             sessions.append((cfg, [_parser.parse(q) for q in sensitive], "corpus-operators"))
+    # the queries with wildcards and modifiers under the configuration whose field options overlap the generated keys
+    opt_q = ['title:*bar', 'fo*', 'title:b?r AND text:x*', 'a:x', 'a:"p q"', 'c:x~1', 'c:"p q"~3', 'title:sp*m~1', 'a:x^2',
+             'title:* OR text:?', 'a:(x y)', 'c:[1 TO 2]']
+    for op in ("should", "must"):
+        sessions.append((dict(FIXED_CONFIGS[1], default_operator=op, not_analyzed_fields=["c"] if op == "must" else []),
+                         [_parser.parse(q) for q in opt_q], "corpus-options"))
     for _ in range(n_sessions):
         cfg = gen_config(r)
         trees = []
